@@ -413,6 +413,7 @@ pub fn run(args: &Args) {
                 plain transfers to the collector {<1000, 1000, 1001, huge}, take-rate changes {off, 0, 1e-18, 1%, 33%, 0.999.., >= 1 (rejected)}, public CollectFees / AggregateFees / ForwardFees, \
                 and NewEpoch (early ones included) until grace+1.. epochs exist; non-trivial = >= 2 epochs created, >= 1 asset swapped away, >= 1 asset left in the collector, >= 1 take-rate payment; \
                 distinct = by hash of the model input".into();
+    if let Some(p) = &args.replay { if replay_kind(p) == "distribution_asset_change" { replay_probe(&mut out, &mut |o| distribution_asset_change_probe(o)); } }
     let mut rng = Rng::new(args.seed);
     corpus(&mut out);
     distribution_asset_change_probe(&mut out);
